@@ -38,8 +38,12 @@ def gen_case(rng, k, thorough=False):
     regime = ['mid', 'mixed', 'thin', 'saturated', 'zero', 'mid', 'mixed'][(k // 4) % 7]
     nl = int(rng.integers(1, 31 if thorough else 16))
     nwn = int(rng.integers(1, 9 if thorough else 6))
+    multigrid = bool(rng.random() < 0.35)
+    ends = []
+    if multigrid:
+        nwn = max(nwn, 3)
     wn = np.sort(rng.choice(np.arange(200.0, 12000.0, 13.0), size=nwn, replace=False))
-    ng = int(rng.integers(1, 21)) if rng.random() < 0.8 else int(rng.integers(1, 3))
+    ng = int(rng.integers(1, 21)) if rng.random() < 0.6 else int(rng.integers(1, 5))
     w = rng.random(ng) + 0.02
     if ng > 2 and rng.random() < 0.2:
         w[int(rng.integers(0, ng))] = 0.0          # a zero weight is allowed
@@ -55,7 +59,7 @@ def gen_case(rng, k, thorough=False):
         elif tclass == 'inverted':
             a = np.sort(a)
         T = [float(x) for x in a]
-    ngas = int(rng.integers(1, 4))
+    ngas = int(rng.integers(2 if multigrid else 1, 4))
     names = [str(x) for x in rng.choice(MOLS, size=ngas, replace=False)]
     gases, tables = {}, {}
     for nm in names:
@@ -77,25 +81,32 @@ def gen_case(rng, k, thorough=False):
         gases[nm] = float(10 ** rng.uniform(-7, -2))
         tables[nm] = dict(tg=tg, pg=pg, kcoeff=kc)
     # quota: further molecules tabulated on their own (shorter, offset) wavenumber grid, so that the model grid is the
-    # first molecule's and the others are resampled onto it (ends inside, on, and beyond the model grid)
-    multigrid = ngas >= 2 and nwn >= 3 and (k // 28) % 2 == 0
+    # first molecule's and the others are resampled onto it; the table grid ends inside the model grid, or straddles
+    # its top / bottom (the model's end point strictly between two table points)
     if multigrid:
         span = float(wn[-1] - wn[0])
         for nm in names[1:]:
             n2 = int(rng.integers(2, nwn))
-            inside = rng.uniform(wn[0], wn[-1], size=2)
-            rest = rng.uniform(wn[0] - 0.3 * span, wn[-1] + 0.3 * span, size=n2 - 2)
-            g2 = np.concatenate([inside, rest])
-            if rng.random() < 0.3:
-                g2[0] = wn[int(rng.integers(0, nwn))]          # a shared grid point
-            g2 = np.unique(np.round(g2, 3))
-            if len(g2) < 2:
+            mode = str(rng.choice(['top', 'bottom', 'both', 'inside'], p=[0.4, 0.2, 0.2, 0.2]))
+            if mode == 'both' and n2 < 3:
+                mode = 'top'
+            nout = {'top': 1, 'bottom': 1, 'both': 2, 'inside': 0}[mode]
+            pts = list(rng.uniform(wn[0], wn[-1], size=max(1, n2 - nout)))
+            if mode == 'inside' and rng.random() < 0.5:
+                pts[0] = float(wn[int(rng.integers(0, nwn))])          # a shared grid point
+            if mode in ('top', 'both'):
+                pts.append(float(rng.uniform(wn[-1] + 1.0, wn[-1] + 1.0 + 0.3 * span)))
+            if mode in ('bottom', 'both'):
+                pts.append(float(max(10.0, rng.uniform(wn[0] - 1.0 - 0.3 * span, wn[0] - 1.0))))
+            g2 = np.unique(np.round(np.array(pts), 3))
+            if len(g2) < 2 or len(g2) >= nwn:
                 continue
             t = tables[nm]
             kc = np.asarray(t['kcoeff'], float)
-            idx = np.sort(rng.choice(nwn, size=len(g2), replace=len(g2) > nwn))
+            idx = np.sort(rng.choice(nwn, size=len(g2), replace=False))
             t['kcoeff'] = kc[:, :, idx, :] * 10 ** rng.uniform(-0.3, 0.3, size=(1, 1, len(g2), 1))
             t['wn'] = g2
+            ends.append(mode)
     cia = None
     if rng.random() < 0.35:
         pair = 'H2-He' if rng.random() < 0.5 else 'H2-H2'
@@ -107,7 +118,7 @@ def gen_case(rng, k, thorough=False):
                 pmin=float(10 ** rng.uniform(-3, 1)), pmax=float(10 ** rng.uniform(4, 7)), T=T, gases=gases,
                 ngauss=int(rng.integers(1, 7)), cia=[cia['pair']] if cia else [])
     return dict(family=family, tkind=tkind, regime=regime, tclass=tclass, spec=spec, wn=wn, tables=tables,
-                weights=w, cia=cia, multigrid=bool(multigrid))
+                weights=w, cia=cia, multigrid=bool(ends), grid_ends=ends)
 
 
 def xsec_tables(c, how):
@@ -203,6 +214,8 @@ def judge(ctx, c, case, small, ok, ox, degenerate, kp=''):
     ctx.bucket('ng:' + ('1' if ng == 1 else ('2-5' if ng <= 5 else ('6-12' if ng <= 12 else '13-20'))))
     ctx.bucket('cia:' + str(bool(c.get('cia'))))
     ctx.bucket('grids:' + ('per-molecule' if c.get('multigrid') else 'shared'))
+    for e_ in c.get('grid_ends') or []:
+        ctx.bucket('table-grid-end:' + str(e_))
     predicates(ctx, c, case, ok, ox, degenerate, kp)
 
 
